@@ -236,7 +236,8 @@ def split(prog: Program, rng: random.Random, *, forms=None, cycles=False, pool=N
     for m in sorted(used | set(imports)):
         path = "target.py" if m == "target" else mod_file(m)
         src = "\n".join(imports.get(m, [])) + ("\n\n" if imports.get(m) else "")
-        src += "\n".join(bodies[nm] for nm in prog.names if place[nm] == m)
+        # callees first, as in merged(): static-method resolution in one file depends on the class being defined above its caller
+        src += "\n".join(bodies[nm] for nm in reversed(prog.names) if place[nm] == m)
         files[path] = src if src.strip() else "\n"
     return {"files": files, "refs": refs, "place": place}
 
